@@ -1580,3 +1580,39 @@ def rule_stream_param_untouched(ctx: Ctx, rep: Report, rule: str, module_prefixe
             rep.ob(rule, f"{q}:{p_}", not rebinds, fi.where(rebinds[0] if rebinds else wraps[0]), "wrapped and checked for trailing octets as the caller gave it" if not rebinds else
                    f"`{norm(rebinds[0])[:60]}` re-binds `{p_}` between the caller and the two helpers that dispatch on its type: octets wrapped here pass for the caller's own stream, and trailing bytes are not refused")
     rep.floor(rule, floor)
+
+
+_MUTABLE_DEFAULT_SAMPLE = """
+def f(descriptor, prv_keys: dict = {}):
+    return g(descriptor, prv_keys)
+"""
+
+
+def mutable_defaults(fn: ast.AST) -> list[ast.AST]:
+    a = fn.args
+    out = []
+    for d in list(a.defaults) + [k for k in a.kw_defaults if k is not None]:
+        if isinstance(d, (ast.Dict, ast.List, ast.Set, ast.ListComp, ast.DictComp, ast.SetComp)) or \
+                (isinstance(d, ast.Call) and call_name(d) in ("dict", "list", "set", "bytearray", "defaultdict", "OrderedDict", "deque")):
+            out.append(d)
+    return out
+
+
+def rule_no_mutable_defaults(ctx: Ctx, rep: Report, rule: str, module_prefixes: tuple[str, ...]) -> None:
+    """A default argument is evaluated once, when the function is defined: a
+    `{}` or `[]` default is one object shared by every call that omits the
+    argument, and whatever a callee files into it (the private keys a
+    descriptor parser collects) is there for the next caller -- the answer
+    then depends on what was computed before. Optional containers default to
+    None."""
+    sample = ast.parse(_MUTABLE_DEFAULT_SAMPLE).body[0]
+    rep.ob(rule, "selftest:sample", len(mutable_defaults(sample)) == 1, "rules/sigcommon.py:1", "the detector fires on its own sample (expected count on the tree is zero)")
+    n = 0
+    for q, fi in sorted(ctx.prog.functions.items()):
+        if not any(q.startswith(p_) for p_ in module_prefixes):
+            continue
+        n += 1
+        for d in mutable_defaults(fi.node):
+            rep.ob(rule, f"{q}:{norm(d)[:30]}", False, fi.where(d), f"the default `{norm(d)}` is one object for every call: what one call leaves in it, the next one finds")
+    rep.ob(rule, "scanned", True, "btclib:1", f"{n} functions in {module_prefixes}")
+    rep.floor(rule, 2)
